@@ -130,7 +130,9 @@ def check(ctx):
     # begins; it goes on counting exactly
     for k, j in enumerate(jobs):
         if k % 4 == 1:
-            j["count_base"] = [2 ** 32 - 3, 2 ** 16 - 2, 2 ** 31 - 1, 2 ** 32 - 1][(k // 4) % 4]
+            j["count_base"] = 2 ** 32 - 3
+        elif k % 4 == 3:
+            j["count_base"] = [2 ** 16 - 2, 2 ** 31 - 1, 2 ** 32 - 1, 2 ** 48 - 2][(k // 4) % 4]
     for i, j in enumerate(jobs):
         j["id"] = i
     with concurrent.futures.ThreadPoolExecutor(max_workers=8) as ex:
